@@ -21,7 +21,7 @@ from vlib.stubs import plain_error_messages, silence_logging
 
 STUBS = silence_logging() + plain_error_messages()
 KINDS = ["function", "class", "attribute"]
-ROUTES = ["direct", "reexport", "member", "inherited"]
+ROUTES = ["direct", "reexport", "member", "inherited", "submodule"]
 EDITS_BREAKING = ["remove", "rekind", "change"]  # change = remove a parameter / remove a base / change the value
 EDITS_COMPATIBLE = ["identity", "add_public", "add_optional_kwarg", "reorder_members"]
 
@@ -71,6 +71,13 @@ def build(kind, route, name, nexports, e1, edit, old):
             pkg.set_member(name, al)
             pkg.imports[name] = f"pkg._impl.{name}"
             al.target  # noqa: B018  (resolved, as `check` loads with resolve_aliases=True)
+    elif route == "submodule":
+        # the object lives in the public submodule pkg.util, which the package's __all__ (if any) does not list:
+        # modules follow the underscore convention only
+        util = Module("util", filepath=Path("/x/pkg/util.py"))
+        pkg.set_member("util", util)
+        if target is not None:
+            util.set_member(name, target)
     else:  # member / inherited: the object is a member of the public class Holder (and inherited by Sub)
         if target is not None:
             holder.set_member(name, target)
@@ -89,6 +96,8 @@ def ref_public(route, name, exports, kind):
     private = name.startswith("_") and not special
     if route in ("member", "inherited"):
         return not private
+    if route == "submodule":
+        return not private  # pkg.util has no __all__; the submodule itself is public whatever pkg.__all__ says
     if exports:
         return name in exports
     if private:
@@ -139,7 +148,7 @@ def verdict(kind: str, route: str, edit: str, name: str, nexports: int, e1: str)
         cover("silent-compatible")
         return not breaks or fail(f"compatible edit {edit} reported {[b.kind.name for b in breaks]}")
     public = ref_public(route, name, exports, kind)
-    paths = {"direct": [f"pkg.{name}"], "reexport": [f"pkg.{name}"], "member": [f"pkg.Holder.{name}", f"pkg.Sub.{name}"], "inherited": [f"pkg.Sub.{name}", f"pkg.Holder.{name}"]}[route]
+    paths = {"direct": [f"pkg.{name}"], "reexport": [f"pkg.{name}"], "member": [f"pkg.Holder.{name}", f"pkg.Sub.{name}"], "inherited": [f"pkg.Sub.{name}", f"pkg.Holder.{name}"], "submodule": [f"pkg.util.{name}"]}[route]
     got = [b.obj.path for b in breaks]
     mine = [p for p in got if p in paths or any(p.startswith(q + "(") or p.startswith(q + ".") for q in paths)]
     if public:
